@@ -302,6 +302,10 @@ impl Sched {
         let mut segment_left: Option<usize> = None;
         let debug = std::env::var("VERIF_SCHED_DEBUG").is_ok();
         let keep_cands = std::env::var("VERIF_KEEP_CANDS").is_ok();
+        // released gate records are dropped only after the run: freeing them here would take the
+        // malloc arena lock of the worker thread that allocated them while that worker runs
+        let mut grave = Vec::with_capacity(4096);
+        trace.reserve(4096);
         let stop = loop {
             let tq = Instant::now();
             let qs = q.wait(&done, Duration::from_secs(20));
@@ -385,8 +389,14 @@ impl Sched {
                 trace.push((p.key.label(), dt));
             }
             step += 1;
+            if crate::common::dbg_on() {
+                crate::common::dbg_push(format!("release step={step} {} last_sample={}", p.key.label(), q.last_desc));
+            }
+            grave.reserve(1);
+            trace.reserve(1);
             *p.cell.0.lock().unwrap() = true;
             p.cell.1.notify_all();
+            grave.push(p);
         };
         // The command may have returned while other threads of it are still running (error paths):
         // let them come to rest at their gates first, so that the moment of deactivation is not a race.
@@ -539,53 +549,169 @@ enum QState {
     Timeout,
 }
 
+/// Quiescence detector. Its sampling loop runs on the scheduler's CPU *while* the command's threads
+/// run on theirs, so it must not share any user-space lock with them: in particular it must not
+/// call malloc/free (glibc arenas are shared between threads once there are more threads than
+/// arenas; a worker that finds its arena locked by the sampler goes to sleep, another worker runs
+/// in its place, and the run-until-block interleaving is no longer a function of the code — measured:
+/// 7 of 12 executions of one scenario differed, 12 of 12 with a single arena). Hence raw system
+/// calls, stack buffers and vectors allocated once.
 struct Quiesce {
     self_tid: i32,
     pub samples: u64,
-    /// threads last seen polling in a timed futex wait (pariter's `recv_timeout(100µs)` loops)
-    poller: BTreeMap<i32, bool>,
+    task_fd: i32,
+    dents: Box<[u8; 16384]>,
+    cur: Vec<(i32, Samp)>,
+    prev: Vec<(i32, Samp)>,
+    pub last_desc: String,
+}
+
+const Q_CAP: usize = 1024;
+
+impl Drop for Quiesce {
+    fn drop(&mut self) {
+        if self.task_fd >= 0 {
+            unsafe {
+                let _ = libc::close(self.task_fd);
+            }
+        }
+    }
+}
+
+/// "<tid>/<leaf>\0" into `buf`
+fn task_path(buf: &mut [u8; 48], tid: i32, leaf: &[u8]) {
+    let mut digits = [0u8; 12];
+    let mut n = 0;
+    let mut t = tid.max(0) as u32;
+    loop {
+        digits[n] = b'0' + (t % 10) as u8;
+        n += 1;
+        t /= 10;
+        if t == 0 {
+            break;
+        }
+    }
+    let mut i = 0;
+    while n > 0 {
+        n -= 1;
+        buf[i] = digits[n];
+        i += 1;
+    }
+    buf[i] = b'/';
+    i += 1;
+    for b in leaf {
+        buf[i] = *b;
+        i += 1;
+    }
+    buf[i] = 0;
+}
+
+/// read a small /proc file relative to `dirfd` into `out`; number of bytes or None
+fn read_small(dirfd: i32, path: &[u8; 48], out: &mut [u8]) -> Option<usize> {
+    unsafe {
+        let fd = libc::openat(dirfd, path.as_ptr().cast(), libc::O_RDONLY | libc::O_CLOEXEC);
+        if fd < 0 {
+            return None;
+        }
+        let n = libc::read(fd, out.as_mut_ptr().cast(), out.len());
+        let _ = libc::close(fd);
+        if n < 0 { None } else { Some(n as usize) }
+    }
+}
+
+fn parse_u64(b: &[u8]) -> Option<u64> {
+    if b.is_empty() {
+        return None;
+    }
+    let mut v = 0u64;
+    for c in b {
+        if !c.is_ascii_digit() {
+            return None;
+        }
+        v = v.wrapping_mul(10).wrapping_add(u64::from(c - b'0'));
+    }
+    Some(v)
 }
 
 impl Quiesce {
     fn new(self_tid: i32) -> Self {
-        Self { self_tid, samples: 0, poller: BTreeMap::new() }
+        let task_fd = unsafe { libc::open(c"/proc/self/task".as_ptr(), libc::O_RDONLY | libc::O_DIRECTORY | libc::O_CLOEXEC) };
+        Self { self_tid, samples: 0, task_fd, dents: Box::new([0u8; 16384]), cur: Vec::with_capacity(Q_CAP), prev: Vec::with_capacity(Q_CAP), last_desc: String::new() }
     }
 
-    fn sample(&mut self) -> Option<BTreeMap<i32, Samp>> {
+    /// fills `self.cur` (sorted by tid); false if the task directory could not be read
+    fn sample(&mut self) -> bool {
         self.samples += 1;
-        let mut map = BTreeMap::new();
-        let dir = std::fs::read_dir("/proc/self/task").ok()?;
-        for e in dir.flatten() {
-            let name = e.file_name();
-            let Some(tid) = name.to_str().and_then(|s| s.parse::<i32>().ok()) else { continue };
-            if tid == self.self_tid {
-                continue;
-            }
-            let base = format!("/proc/self/task/{tid}");
-            let Ok(stat) = std::fs::read(format!("{base}/stat")) else { continue }; // thread gone
-            let Some(rp) = stat.iter().rposition(|b| *b == b')') else { continue };
-            let state = *stat.get(rp + 2).unwrap_or(&b'R');
-            if state == b'Z' || state == b'X' {
-                continue; // exiting thread
-            }
-            let Ok(ss) = std::fs::read_to_string(format!("{base}/schedstat")) else { continue };
-            let mut it = ss.split_whitespace();
-            let run_ns = it.next().and_then(|s| s.parse().ok()).unwrap_or(0);
-            let _wait = it.next();
-            let slices = it.next().and_then(|s| s.parse().ok()).unwrap_or(0);
-            map.insert(tid, Samp { sleeping: state == b'S', slices, run_ns });
+        self.cur.clear();
+        if self.task_fd < 0 {
+            return false;
         }
-        Some(map)
+        unsafe {
+            if libc::lseek(self.task_fd, 0, libc::SEEK_SET) < 0 {
+                return false;
+            }
+        }
+        loop {
+            let n = unsafe { libc::syscall(libc::SYS_getdents64, self.task_fd, self.dents.as_mut_ptr(), self.dents.len()) };
+            if n < 0 {
+                return false;
+            }
+            if n == 0 {
+                break;
+            }
+            let n = n as usize;
+            let mut off = 0usize;
+            while off + 19 <= n {
+                // struct linux_dirent64 { u64 d_ino; i64 d_off; u16 d_reclen; u8 d_type; char d_name[] }
+                let reclen = u16::from_ne_bytes([self.dents[off + 16], self.dents[off + 17]]) as usize;
+                if reclen == 0 || off + reclen > n {
+                    break;
+                }
+                let name = &self.dents[off + 19..off + reclen];
+                let len = name.iter().position(|b| *b == 0).unwrap_or(name.len());
+                let tid = parse_u64(&name[..len]).map(|t| t as i32);
+                off += reclen;
+                let Some(tid) = tid else { continue };
+                if tid == self.self_tid {
+                    continue;
+                }
+                let mut path = [0u8; 48];
+                let mut buf = [0u8; 1024];
+                task_path(&mut path, tid, b"stat");
+                let Some(k) = read_small(self.task_fd, &path, &mut buf) else { continue }; // thread gone
+                let stat = &buf[..k];
+                let Some(rp) = stat.iter().rposition(|b| *b == b')') else { continue };
+                let state = *stat.get(rp + 2).unwrap_or(&b'R');
+                if state == b'Z' || state == b'X' {
+                    continue; // exiting thread
+                }
+                task_path(&mut path, tid, b"schedstat");
+                let mut sbuf = [0u8; 128];
+                let Some(k) = read_small(self.task_fd, &path, &mut sbuf) else { continue };
+                let mut it = sbuf[..k].split(|b| b.is_ascii_whitespace()).filter(|w| !w.is_empty());
+                let run_ns = it.next().and_then(parse_u64).unwrap_or(0);
+                let _wait = it.next();
+                let slices = it.next().and_then(parse_u64).unwrap_or(0);
+                if self.cur.len() < Q_CAP {
+                    self.cur.push((tid, Samp { sleeping: state == b'S', slices, run_ns }));
+                }
+            }
+        }
+        self.cur.sort_unstable_by_key(|e| e.0);
+        true
     }
 
     /// (syscall nr, timed?) of a sleeping thread
-    fn syscall_of(tid: i32) -> Option<(i64, bool)> {
-        let s = std::fs::read_to_string(format!("/proc/self/task/{tid}/syscall")).ok()?;
-        let mut it = s.split_whitespace();
-        let nr: i64 = it.next()?.parse().ok()?;
-        let args: Vec<&str> = it.collect();
+    fn syscall_of(&self, tid: i32) -> Option<(i64, bool)> {
+        let mut path = [0u8; 48];
+        task_path(&mut path, tid, b"syscall");
+        let mut buf = [0u8; 256];
+        let k = read_small(self.task_fd, &path, &mut buf)?;
+        let mut it = buf[..k].split(|b| b.is_ascii_whitespace()).filter(|w| !w.is_empty());
+        let first = it.next()?;
+        let nr: i64 = if first.first() == Some(&b'-') { -(parse_u64(&first[1..])? as i64) } else { parse_u64(first)? as i64 };
         // futex(uaddr, op, val, timeout, ...): 4th argument
-        let timed = args.get(3).map(|a| *a != "0x0").unwrap_or(false);
+        let timed = it.nth(3).map(|a| a != b"0x0").unwrap_or(false);
         Some((nr, timed))
     }
 
@@ -594,8 +720,9 @@ impl Quiesce {
     /// quarter of the wall time in between; and no thread is in a real-time sleep.
     fn wait(&mut self, done: &AtomicBool, budget: Duration) -> QState {
         let t0 = Instant::now();
-        let mut prev: Option<(BTreeMap<i32, Samp>, Instant)> = None;
-        let need: u32 = std::env::var("VERIF_Q_STREAK").ok().and_then(|s| s.parse().ok()).unwrap_or(1);
+        let mut have_prev = false;
+        let mut prev_t = t0;
+        let need: u32 = 1;
         let mut streak = 0u32;
         loop {
             if done.load(Ordering::SeqCst) {
@@ -605,17 +732,18 @@ impl Quiesce {
                 return QState::Timeout;
             }
             let now = Instant::now();
-            let Some(cur) = self.sample() else {
-                prev = None;
+            if !self.sample() {
+                have_prev = false;
                 continue;
-            };
+            }
             let mut ok = false;
-            if let Some((p, pt)) = &prev {
-                let wall = now.duration_since(*pt).as_nanos() as u64;
-                if p.len() == cur.len() && p.keys().eq(cur.keys()) {
+            if have_prev {
+                let wall = now.duration_since(prev_t).as_nanos() as u64;
+                if self.prev.len() == self.cur.len() && self.prev.iter().map(|e| e.0).eq(self.cur.iter().map(|e| e.0)) {
                     ok = true;
-                    for (tid, c) in &cur {
-                        let o = p[tid];
+                    for i in 0..self.cur.len() {
+                        let (tid, c) = self.cur[i];
+                        let o = self.prev[i].1;
                         if !(o.sleeping && c.sleeping) {
                             // a runnable thread is never idle, poller or not: it may just have
                             // picked up work
@@ -627,7 +755,7 @@ impl Quiesce {
                         }
                         // it ran in between: tolerated only if it is (again) polling in a timed
                         // futex wait and used little CPU
-                        let timed = matches!(Self::syscall_of(*tid), Some((202, true)));
+                        let timed = matches!(self.syscall_of(tid), Some((202, true)));
                         if !(timed && c.run_ns.saturating_sub(o.run_ns) < wall / 4) {
                             ok = false;
                             break;
@@ -638,11 +766,12 @@ impl Quiesce {
             if ok {
                 // threads in a real-time sleep are about to run again: busy
                 let mut sleeper = false;
-                for (tid, c) in &cur {
+                for i in 0..self.cur.len() {
+                    let (tid, c) = self.cur[i];
                     if !c.sleeping {
                         continue;
                     }
-                    if let Some((nr, _)) = Self::syscall_of(*tid) {
+                    if let Some((nr, _)) = self.syscall_of(tid) {
                         if nr == 35 || nr == 230 {
                             sleeper = true;
                             break;
@@ -652,21 +781,26 @@ impl Quiesce {
                 if !sleeper {
                     streak += 1;
                     if streak >= need {
+                        if crate::common::dbg_on() {
+                            self.last_desc = self.cur.iter().map(|(t, c)| format!("{t}:{}", c.slices)).collect::<Vec<_>>().join(",");
+                        }
                         return QState::Quiescent;
                     }
-                    prev = Some((cur, now));
+                    std::mem::swap(&mut self.prev, &mut self.cur);
+                    have_prev = true;
+                    prev_t = now;
                     spin(60);
                     continue;
                 }
                 streak = 0;
-                prev = None;
+                have_prev = false;
                 std::thread::sleep(Duration::from_micros(500));
                 continue;
             }
-            if !ok {
-                streak = 0;
-            }
-            prev = Some((cur, now));
+            streak = 0;
+            std::mem::swap(&mut self.prev, &mut self.cur);
+            have_prev = true;
+            prev_t = now;
             spin(60);
         }
     }
